@@ -546,7 +546,12 @@ class BaseName:
             # Probably a builtin module, just ignore in that case.
             return ''
 
-        index = self._name.start_pos[0] - 1
+        start_pos = self._name.start_pos
+        if start_pos is None:
+            # Names like the module attribute __name__ have no position.
+            return ''
+
+        index = start_pos[0] - 1
         start_index = max(index - before, 0)
         return ''.join(lines[start_index:index + after + 1])
 
